@@ -62,8 +62,17 @@ class C12(FCheck):
         inv = gen.mk_inv(["src"], "dst", driver=driver, workers=min(workers, 16), block_size=bs, **flags)
         updater = ["record", "channel", "noop"][idx % 3]
         mode = ["thread", "inline"][(idx // 3) % 2]
+        race_shape = idx % 10 == 4
+        if race_shape:
+            # many updates smaller than the batching unit from several workers at once: the shape in which the provided updater's
+            # shared counters are contended (files below the block size under parfile, short blocks under parblock)
+            updater, mode = "channel", "thread"
+            bs = r.choice([65536, 1 << 20])
+            ops = [gen.d_op("src")] + [gen.f_op("src/r%02d" % i, r.randrange(9000, 30000), pat=r.randrange(1, 1 << 30)) for i in range(r.randrange(10, 18))]
+            kernel = {}
+            inv = gen.mk_inv(["src"], "dst", driver=r.choice(["parfile", "parfile", "parblock"]), workers=r.choice([3, 4, 8]), block_size=bs, r=True)
         return {"setup": ops, "bin": "probe", "steps": [{"inv": inv, "argv": probe_argv(inv, updater, mode)}], "updater": updater, "mode": mode,
-                "max_events": 400000, "kernel": kernel}
+                "max_events": 400000, "kernel": kernel, "race_shape": race_shape}
 
     def _stream(self, res, verdict, case):
         f = []
@@ -147,8 +156,29 @@ class C12(FCheck):
     def evaluate_fault(self, res, verdict, case, t0, plan, base):
         return self._eval(res, verdict, case, t0, plan, self.exemptions(res))
 
+    EXTRA_SCHED = {"quick": 3, "thorough": 12}
+
+    def items(self, tier, seed):
+        for it in super().items(tier, seed):
+            it["extra_sched"] = self.EXTRA_SCHED[tier]
+            yield it
+
     def run_item(self, sim, item):
+        import random
+        from ..campaign import run_step, summarize
         rec = super().run_item(sim, item)
+        case = item["case"]
+        # the updaters' own shared state (ChannelUpdater's counters) is only exercised by interleavings *inside* send(): a few more
+        # fault-free schedules of the same case, all with user-space preemption after atomic instructions (DESIGN 2.7)
+        if item.get("extra_sched") and case.get("updater") != "noop" and not item.get("only"):
+            r = random.Random(item["pick_seed"] ^ 0x12c)
+            for j in range(item["extra_sched"] * (10 if case.get("race_shape") else 1)):
+                sp = gen.sched_plan(r, ustep=1.0)
+                sp["ustep_budget"] = 300  # these runs exist for the stepping: let it reach the workers' late segments too
+                plan = {"seed": r.randrange(1 << 48), "sched": sp}
+                res, verdict, t0 = run_step(sim, case, 0, plan, self.log)
+                f = self.evaluate(res, verdict, case, 0, t0, plan)
+                rec["runs"].append(summarize(res, f, plan, {"nontrivial": True, "probes": {"extra-stepping-schedules": 1}}))
         if rec["runs"]:
             rec["runs"][0]["nontrivial"] = True
         rec["probes"] = {"updater:" + item["case"]["updater"] + "/" + item["case"]["mode"]: 1}
